@@ -333,7 +333,17 @@ def status_of(recs):
             detail = r["leak_report"][:3000]
     if st == "ok" and not ended:
         st = "missing"
+    detail = "".join(ch if (32 <= ord(ch) < 127 or ch in "\n\t") else "?" for ch in detail)   # keep logs greppable
     return st, leak, detail
+
+
+def crash_sig(detail):
+    """Sanitizer error kind + innermost library frames of a crash report (stable part of a crash signature)."""
+    import re
+    m = re.search(r"ERROR: (\w+Sanitizer): ([\w-]+)", detail or "")
+    kind = "%s:%s" % (m.group(1), m.group(2)) if m else ("UBSan" if "runtime error" in (detail or "") else "abort")
+    frames = re.findall(r"#\d+ 0x[0-9a-f]+ in (\w+) [^\n]*?/src/lib/", detail or "")
+    return "%s at=%s" % (kind, "<".join(frames[:3]) or "?")
 
 
 def op_record(recs, i):
